@@ -21,6 +21,20 @@ CLAIMS = {
     ),
 }
 
+CLAIMS["C16"] = (
+    "proof",
+    "For every list length, focus, index and slice (start/stop/step of either sign, None, out of range) and every number of new items: "
+    "_adjust_focus_on_contents_modified returns the focus position the statement prescribes (follows the item; next surviving item, else last, when removed; "
+    "same position when replaced in place); every mutator performs exactly one list operation with the caller's arguments, then calls the modified "
+    "callback once, then stores that focus through the verified setter (focus-changed fires iff the index changes); on IndexError/ValueError nothing is changed; "
+    "the range invariant holds at every exit. A bounded stand-in (every op x every index/slice on lists <= 4, vs a plain list + the same spec) runs as well.",
+    "Assumes: builtin list/slice/range models (cross-checked against CPython each run); list contents are abstract (the only list mutation is the single "
+    "builtin call, shown by the ghost trace); default validator returns None; sort: list.sort permutes (old focus item still present). "
+    "Transitions through the empty list are only required to end in range (reading stated in DESIGN.md §6 C16).",
+    "§6 C16",
+    TECH + "; bounded exhaustive small-scope stand-in as replay oracle",
+)
+
 PENDING = "contracts for this property are not built yet in this commit (see DESIGN.md §6 for the plan); no check is claimed"
 
 
